@@ -211,10 +211,17 @@ theorem respSigma3_G {H S C E} (t : Time) (ctx : RespCtx) (m : Msg) (p : Session
     rw [s3k, hsec] at this
     exact not_G_kdf hx hy _ _ this
 
+/-- an intermediate certificate inside an attacker-made plaintext is one the attacker can present -/
+theorem G_optCert {H S C E} {o : Option Cert} (h : G H S C E (optCert o)) : ∀ i ∈ o, C i := by
+  intro i hi
+  cases o with
+  | none => cases hi
+  | some c => cases hi; exact h
+
 /-- initiator, Sigma2: either the ciphertext is an honest one, or the attacker made it — then
 it carries a certificate of `C` for the addressed node id and a signature under its key -/
 theorem initSigma2_G {H S C E} (t : Time) (c : InitCtx) (m : Msg) (c3 : InitCtx3)
-    (hcert : ∀ noc ic, C noc → CaseValid t c.fabric.view noc ic →
+    (hcert : ∀ noc ic, C noc → (∀ i ∈ ic, C i) → CaseValid t c.fabric.view noc ic →
       nodeIdOf noc.subject = some c.peerNode → ¬ S noc.pubKey)
     (h : initSigma2 t c m = some c3) (hg : G H S C E m.toTerm) :
     ∃ rRnd rSid rEph pl, m = .sigma2 rRnd rSid rEph
@@ -232,7 +239,7 @@ theorem initSigma2_G {H S C E} (t : Time) (c : InitCtx) (m : Msg) (c3 : InitCtx3
     simp only [tbe2, G] at h3
     have hs := h3.2.2.1
     rw [hsig] at hs
-    exact hcert noc icac h3.1 hv hn hs.1
+    exact hcert noc icac h3.1 (G_optCert h3.2.1) hv hn hs.1
 
 /-- initiator, resumption: the `Resume2MIC` it accepted is an honest one -/
 theorem initSigma2Resume_G {H S C E} (c : InitCtx) (m : Msg) (p : Session × ResRec)
@@ -276,10 +283,12 @@ structure FullSetting (A : Attacker) (cfg : HsCfg) where
   hcacheR : ∀ r ∈ cfg.cacheR, ∃ x y, r.secret = .shared x y ∧ x ∈ A.H ∧ y ∈ A.H
   /-- the initiator has no record for this peer: it runs the full handshake -/
   hfull : cfg.init0.cached = none
-  /-- the attacker cannot sign under a key that a certificate valid for the initiator's fabric
-  certifies for the addressed node id -/
-  hcert : ∀ c ic, A.C c → CaseValid cfg.t cfg.fI.view c ic → nodeIdOf c.subject = some cfg.peer →
-    ¬ A.S c.pubKey
+  /-- no chain the attacker can PRESENT (leaf and intermediate, if any, both among its certificates
+  `A.C`) that is valid for the initiator's fabric and names the addressed node id certifies a key the
+  attacker can sign with.  Derivable from the provenance of its certificates: `hcert_of_provenance`
+  (`Props/C01.lean`); inhabited for an insider that can present any self-made record: `exFullSetting` -/
+  hcert : ∀ c ic, A.C c → (∀ i ∈ ic, A.C i) → CaseValid cfg.t cfg.fI.view c ic →
+    nodeIdOf c.subject = some cfg.peer → ¬ A.S c.pubKey
 
 /-- the responder's context in the untouched run (if it answers Sigma1 at all) -/
 def hCtx (cfg : HsCfg) : Option RespCtx :=
@@ -1100,8 +1109,9 @@ structure ResumeSetting (A : Attacker) (cfg : HsCfg) where
   hx : x ∈ A.H
   hy : y ∈ A.H
   hcacheR : ∀ r ∈ cfg.cacheR, ∃ x y, r.secret = .shared x y ∧ x ∈ A.H ∧ y ∈ A.H
-  hcert : ∀ c ic, A.C c → CaseValid cfg.t cfg.fI.view c ic → nodeIdOf c.subject = some cfg.peer →
-    ¬ A.S c.pubKey
+  /-- as in `FullSetting` (presentable chains only) -/
+  hcert : ∀ c ic, A.C c → (∀ i ∈ ic, A.C i) → CaseValid cfg.t cfg.fI.view c ic →
+    nodeIdOf c.subject = some cfg.peer → ¬ A.S c.pubKey
   /-- the responder resumes in the untouched run -/
   cx0 : RespResumeCtx
   hcx0 : respResume cfg.fabricsR cfg.cacheR cfg.init0.s1 cfg.ridR cfg.sidR = some cx0
@@ -1598,20 +1608,18 @@ def exCfg : HsCfg :=
     ephI := 11, ephR := 12, rndI := .atom 501, sidI := .atom 601, rndR := .atom 502,
     ridR := .atom 702, sidR := .atom 602 }
 
-/-- knows neither ephemeral secret, signs with key 66 only, holds the responder's certificate -/
-def exAttacker : Attacker := { H := [11, 12], S := (· = 66), C := (· = devNoc) }
+/-- knows neither ephemeral secret; an insider of the fabric (genuine NOC `insiderNoc` for node 300
+on its key 66), signs with key 66, presents every honest certificate and EVERY record of its own
+making (self-issued NOCs for the addressed node id, self-issued intermediates, …): `exS`, `exC` of
+`Props/C01.lean` -/
+def exAttacker : Attacker := { H := [11, 12], S := exS, C := exC }
 
 def exFullSetting : FullSetting exAttacker exCfg :=
   { rI := 501, sI := 601, rR := 502, idR := 702, sR := 602, ipk := 77,
     hrndI := rfl, hsidI := rfl, hrndR := rfl, hridR := rfl, hsidR := rfl, hipk := rfl,
     hephI := by decide, hephR := by decide, hcacheR := (by intro r hr; cases hr),
     hfull := rfl,
-    hcert := (by
-      intro c ic hc _ _
-      have : c = devNoc := hc
-      subst this
-      show ¬ (devNoc.pubKey = 66)
-      decide) }
+    hcert := exHcert }
 
 /-- the untouched run completes on both ends … -/
 example : (hResI exCfg).isSome = true ∧ (hResR exCfg).isSome = true := by decide
@@ -1651,7 +1659,7 @@ def exRecR : ResRec := { fabIdx := 2, peerNode := 5, cats := [65537], rid := .at
 
 def exCfgR : HsCfg := { exCfg with cacheI := [exRecI], cacheR := [exRecR] }
 
-def exAttackerR : Attacker := { H := [3, 4, 11, 12], S := (· = 66), C := (· = devNoc) }
+def exAttackerR : Attacker := { H := [3, 4, 11, 12], S := exS, C := exC }
 
 def exCx0 : RespResumeCtx :=
   (respResume exCfgR.fabricsR exCfgR.cacheR exCfgR.init0.s1 exCfgR.ridR exCfgR.sidR).getD default
@@ -1667,12 +1675,7 @@ def exResumeSetting : ResumeSetting exAttackerR exCfgR :=
       have : r = exRecR := by simpa [exCfgR] using hr
       subst this
       exact ⟨3, 4, rfl, by decide, by decide⟩),
-    hcert := (by
-      intro c ic hc _ _
-      have : c = devNoc := hc
-      subst this
-      show ¬ (devNoc.pubKey = 66)
-      decide),
+    hcert := exHcert,
     cx0 := exCx0,
     hcx0 := (by
       have h : (respResume exCfgR.fabricsR exCfgR.cacheR exCfgR.init0.s1 exCfgR.ridR exCfgR.sidR).isSome = true := by
